@@ -283,12 +283,21 @@ class time_limit:
         raise Timeout()
 
     def __enter__(self):
+        import time
+
         self.old = signal.signal(signal.SIGALRM, self._h)
-        signal.setitimer(signal.ITIMER_REAL, self.seconds)
+        # ITIMER_REAL is also the watchdog of `check` (signal.alarm): remember what was left of it and re-arm it on exit, otherwise the
+        # first use of time_limit would switch the run's time budget off for good
+        self.t_in = time.time()
+        self.outer = signal.setitimer(signal.ITIMER_REAL, self.seconds)[0]
 
     def __exit__(self, *a):
+        import time
+
         signal.setitimer(signal.ITIMER_REAL, 0)
         signal.signal(signal.SIGALRM, self.old)
+        if self.outer > 0:
+            signal.setitimer(signal.ITIMER_REAL, max(self.outer - (time.time() - self.t_in), 0.01))
         return False
 
 
